@@ -47,11 +47,11 @@ def reversePath (p : Path) : Path :=
 
 /-- **A beaconed segment is forwardable end to end in construction direction.** -/
 theorem segment_forwardable (macf : MacF) (t : Topo) (ts beta0 now : Nat) (es : List Entry)
-    (hn : 2 ≤ es.length) (hc : ChainOK t es) (htm : Timely macf ts beta0 now es)
+    (hn : 2 ≤ es.length) (hmax : es.length ≤ MAX_TOTAL_HOPS + 1) (hc : ChainOK t es) (htm : Timely macf ts beta0 now es)
     (first last : Entry) (hf : es[0]? = some first) (hl : es[es.length - 1]? = some last) :
     walk macf t last.ia now false (es.length + 2) first.ia 0 (fwdPath macf ts beta0 es 0) 0 =
       some (.delivered last.ia, fwdPath macf ts beta0 es (es.length - 1), es.length) := by
-  have h := fwd_walk macf t ts beta0 now es last.ia hn hc htm
+  have h := fwd_walk macf t ts beta0 now es last.ia hn hmax hc htm
     (fun e he => by rw [hl] at he; cases he; rfl)
     (es.length - 1) 0 first 0 0 (es.length + 2) (by omega) hf (Or.inl rfl) (by omega)
   have harith : 0 + (es.length - 1) + 1 = es.length := by omega
@@ -59,12 +59,12 @@ theorem segment_forwardable (macf : MacF) (t : Topo) (ts beta0 now : Nat) (es : 
 
 /-- **… and against construction direction** (up-segment / reply). -/
 theorem segment_forwardable_reverse (macf : MacF) (t : Topo) (ts beta0 now : Nat) (es : List Entry)
-    (hn : 2 ≤ es.length) (hc : ChainOK t es) (htm : Timely macf ts beta0 now es)
+    (hn : 2 ≤ es.length) (hmax : es.length ≤ MAX_TOTAL_HOPS + 1) (hc : ChainOK t es) (htm : Timely macf ts beta0 now es)
     (first last : Entry) (hf : es[0]? = some first) (hl : es[es.length - 1]? = some last) :
     walk macf t first.ia now false (es.length + 2) last.ia 0
         (revPath macf ts beta0 es 0 (betaAt macf ts beta0 es (es.length - 1))) 0 =
       some (.delivered first.ia, revPath macf ts beta0 es (es.length - 1) beta0, es.length) := by
-  have h := rev_walk macf t ts beta0 now es first.ia hn hc htm
+  have h := rev_walk macf t ts beta0 now es first.ia hn hmax hc htm
     (fun e he => by rw [hf] at he; cases he; rfl)
     (es.length - 1) 0 last (betaAt macf ts beta0 es (es.length - 1)) 0 0 (es.length + 2) (by omega)
     (by simpa using hl) (Or.inl rfl) (by simp) (by omega)
@@ -85,6 +85,7 @@ theorem reply_is_reversal (macf : MacF) (ts beta0 : Nat) (es : List Entry) (hn :
     (up – down incl. shortcuts and on-path destinations, up – core, core – down). -/
 theorem path2_walk (macf : MacF) (t : Topo) (now : Nat) (a b : Seg)
     (ha : 2 ≤ a.es.length) (hb : 2 ≤ b.es.length)
+    (hmax : a.es.length + b.es.length ≤ MAX_TOTAL_HOPS + 1)
     (ta : TravelOK t a) (tb : TravelOK t b) (ma : a.Timely macf now) (mb : b.Timely macf now)
     (jab : Junction t a b)
     (src dst : Entry) (hsrc : a.entry 0 = some src) (hdst : b.entry (b.es.length - 1) = some dst) :
@@ -94,20 +95,21 @@ theorem path2_walk (macf : MacF) (t : Topo) (now : Nat) (a b : Seg)
   have hfuel : a.es.length + b.es.length + 2 = (1 + (b.es.length - 2) + (1 + 3)) + (a.es.length - 1) := by omega
   have hsteps : a.es.length + b.es.length - 1 = 0 + (a.es.length - 1) + 1 + (b.es.length - 2) + 1 := by omega
   let F := frame2 macf a b
+  have hmF : F.L0 + F.L1 + F.L2 ≤ MAX_TOTAL_HOPS + 1 := by simpa [F, frame2] using hmax
   have oa := occ2_a macf a b ha
   have ob := occ2_b macf a b hb
   obtain ⟨ea, e0b, la, lb, hea, he0b, hia, hk, hla, hlb, hok⟩ := jab
   obtain ⟨e1, I1, if1, h1e, h1a, h1I, h1o, h1w⟩ :=
-    seg_travel macf t now dst.ia F a 0 0 oa ta ma (a.es.length - 1) 0 src (infos2 macf a b) 0 0
+    seg_travel macf t now dst.ia F a 0 0 hmF oa ta ma (a.es.length - 1) 0 src (infos2 macf a b) 0 0
       (1 + (b.es.length - 2) + (1 + 3)) (by omega) hsrc ⟨fun _ => rfl, fun h => by omega⟩
       (by simp [infos2, Seg.arrSid])
   rw [hea] at h1e; cases h1e
   obtain ⟨e2, I2, if2, h2e, h2a, h2I, h2o, h2w⟩ :=
-    seg_cross macf t now dst.ia F a b 0 0 oa ob ta tb ma mb ea e0b I1 if1 (0 + (a.es.length - 1))
+    seg_cross macf t now dst.ia F a b 0 0 hmF oa ob ta tb ma mb ea e0b I1 if1 (0 + (a.es.length - 1))
       ((b.es.length - 2) + (1 + 3)) la lb hea he0b hia hk hla hlb hok h1a h1I
       (by rw [h1o 1 (by omega)]; simp [infos2])
   obtain ⟨e3, I3, if3, h3e, h3a, h3I, h3o, h3w⟩ :=
-    seg_travel macf t now dst.ia F b (0 + 1) (0 + a.es.length) ob tb mb (b.es.length - 2) 1 e2 I2 if2
+    seg_travel macf t now dst.ia F b (0 + 1) (0 + a.es.length) hmF ob tb mb (b.es.length - 2) 1 e2 I2 if2
       (0 + (a.es.length - 1) + 1) (1 + 3) (by omega) h2e h2a h2I
   rw [hdst] at h3e; cases h3e
   obtain ⟨q, h6w⟩ := seg_deliver macf t now F b (0 + 1) (0 + a.es.length) ob tb mb
@@ -124,6 +126,7 @@ theorem path2_walk (macf : MacF) (t : Topo) (now : Nat) (a b : Seg)
     (`a`, `b`, `c` in travel order, each in either direction; e.g. up – core – down.) -/
 theorem path3_walk (macf : MacF) (t : Topo) (now : Nat) (a b c : Seg)
     (ha : 2 ≤ a.es.length) (hb : 2 ≤ b.es.length) (hc : 2 ≤ c.es.length)
+    (hmax : a.es.length + b.es.length + c.es.length ≤ MAX_TOTAL_HOPS + 1)
     (ta : TravelOK t a) (tb : TravelOK t b) (tc : TravelOK t c)
     (ma : a.Timely macf now) (mb : b.Timely macf now) (mc : c.Timely macf now)
     (jab : Junction t a b) (jbc : Junction t b c)
@@ -132,6 +135,7 @@ theorem path3_walk (macf : MacF) (t : Topo) (now : Nat) (a b c : Seg)
         ((frame3 macf a b c).pkt (infos3 macf a b c) 0 0) 0 =
       some (.delivered dst.ia, q, a.es.length + b.es.length + c.es.length - 2) := by
   let F := frame3 macf a b c
+  have hmF : F.L0 + F.L1 + F.L2 ≤ MAX_TOTAL_HOPS + 1 := by simpa [F, frame3] using hmax
   have oa := occ3_a macf a b c ha
   have ob := occ3_b macf a b c hb
   have oc := occ3_c macf a b c hc
@@ -139,30 +143,30 @@ theorem path3_walk (macf : MacF) (t : Topo) (now : Nat) (a b c : Seg)
   obtain ⟨eb, e0c, la', lb', heb, he0c, hia', hk', hla', hlb', hok'⟩ := jbc
   -- 1. along segment a
   obtain ⟨e1, I1, if1, h1e, h1a, h1I, h1o, h1w⟩ :=
-    seg_travel macf t now dst.ia F a 0 0 oa ta ma (a.es.length - 1) 0 src (infos3 macf a b c) 0 0
+    seg_travel macf t now dst.ia F a 0 0 hmF oa ta ma (a.es.length - 1) 0 src (infos3 macf a b c) 0 0
       (1 + (b.es.length - 2) + (1 + (c.es.length - 2) + (1 + 4))) (by omega) hsrc ⟨fun _ => rfl, fun h => by omega⟩
       (by simp [infos3, Seg.arrSid])
   rw [hea] at h1e; cases h1e
   -- 2. crossover a -> b
   obtain ⟨e2, I2, if2, h2e, h2a, h2I, h2o, h2w⟩ :=
-    seg_cross macf t now dst.ia F a b 0 0 oa ob ta tb ma mb ea e0b I1 if1 (0 + (a.es.length - 1))
+    seg_cross macf t now dst.ia F a b 0 0 hmF oa ob ta tb ma mb ea e0b I1 if1 (0 + (a.es.length - 1))
       ((b.es.length - 2) + (1 + (c.es.length - 2) + (1 + 4))) la lb hea he0b hia hk hla hlb hok h1a h1I
       (by rw [h1o 1 (by omega)]; simp [infos3])
   -- 3. along segment b
   obtain ⟨e3, I3, if3, h3e, h3a, h3I, h3o, h3w⟩ :=
-    seg_travel macf t now dst.ia F b (0 + 1) (0 + a.es.length) ob tb mb (b.es.length - 2) 1 e2 I2 if2
+    seg_travel macf t now dst.ia F b (0 + 1) (0 + a.es.length) hmF ob tb mb (b.es.length - 2) 1 e2 I2 if2
       (0 + (a.es.length - 1) + 1) (1 + (c.es.length - 2) + (1 + 4)) (by omega) h2e h2a h2I
   rw [heb] at h3e; cases h3e
   -- 4. crossover b -> c
   have hI3c : I3[0 + 1 + 1]? = some (c.info (c.beta macf 0)) := by
     rw [h3o 2 (by omega), h2o 2 (by omega) (by omega), h1o 2 (by omega)]; simp [infos3]
   obtain ⟨e4, I4, if4, h4e, h4a, h4I, h4o, h4w⟩ :=
-    seg_cross macf t now dst.ia F b c (0 + 1) (0 + a.es.length) ob oc tb tc mb mc eb e0c I3 if3
+    seg_cross macf t now dst.ia F b c (0 + 1) (0 + a.es.length) hmF ob oc tb tc mb mc eb e0c I3 if3
       (0 + (a.es.length - 1) + 1 + (b.es.length - 2)) ((c.es.length - 2) + (1 + 4)) la' lb' heb he0c hia' hk' hla' hlb' hok'
       h3a h3I hI3c
   -- 5. along segment c
   obtain ⟨e5, I5, if5, h5e, h5a, h5I, h5o, h5w⟩ :=
-    seg_travel macf t now dst.ia F c (0 + 1 + 1) (0 + a.es.length + b.es.length) oc tc mc (c.es.length - 2) 1 e4 I4 if4
+    seg_travel macf t now dst.ia F c (0 + 1 + 1) (0 + a.es.length + b.es.length) hmF oc tc mc (c.es.length - 2) 1 e4 I4 if4
       (0 + (a.es.length - 1) + 1 + (b.es.length - 2) + 1) (1 + 4) (by omega) h4e h4a h4I
   rw [hdst] at h5e; cases h5e
   -- 6. delivery
@@ -194,6 +198,19 @@ example :
                                 ⟨2, 9, .parent, 3, 4, true⟩, ⟨3, 4, .child, 2, 9, true⟩] }
     (walk mac t 3 150 false 5 1 0 (fwdPath mac 100 9 es 0) 0).map (fun r => (r.1, r.2.2)) = some (.delivered 3, 3) ∧
     (walk mac t 1 150 false 5 3 0 (reversePath (fwdPath mac 100 9 es 2)) 0).map (fun r => (r.1, r.2.2)) = some (.delivered 1, 3) := by
+  decide +kernel
+
+/-! ## non-vacuity of `path2_walk`: up segment 2 → 1 (against construction direction) joined at the core AS 1
+   with the down segment 1 → 3; the packet built by `frame2`/`infos2` is delivered in AS 3 after 3 AS steps -/
+example :
+    let mac : MacF := fun k b t e ci ce => (k.length + b + t + e + ci + ce) % 2 ^ 48
+    let a : Seg := ⟨[⟨1, [1], 0, 5, 63⟩, ⟨2, [2], 7, 0, 63⟩], 100, 9, false⟩
+    let b : Seg := ⟨[⟨1, [1], 0, 6, 63⟩, ⟨3, [3], 8, 0, 63⟩], 120, 4, true⟩
+    let t : Topo := { ases := [⟨1, true, false, [1]⟩, ⟨2, false, false, [2]⟩, ⟨3, false, false, [3]⟩],
+                      links := [⟨1, 5, .parent, 2, 7, true⟩, ⟨2, 7, .child, 1, 5, true⟩,
+                                ⟨1, 6, .parent, 3, 8, true⟩, ⟨3, 8, .child, 1, 6, true⟩] }
+    (walk mac t 3 150 false 6 2 0 ((frame2 mac a b).pkt (infos2 mac a b) 0 0) 0).map (fun r => (r.1, r.2.2)) =
+      some (.delivered 3, 3) := by
   decide +kernel
 
 end ScionVerif.Router
